@@ -1291,7 +1291,11 @@ fn check(led: &Led, max_response_size: Option<u16>, junk: &[Vec<u8>]) {
                             // by a server-level reconfigure().
                             let idle_ns = IDLE_MS.with(|c| c.get()) * 1_000_000;
                             let called = CALLED.with(|p| p.borrow().get(&s.ask.k).copied());
-                            let undone = called.is_some_and(|t0| RECONF_NS.with(|r| r.borrow().iter().any(|t| *t >= t0 && *t <= t0 + idle_ns * 3 / 2)));
+                            // (A reconfigure() issued *before* the service's feedback
+                            // counts too: a connection busy writing to a slow
+                            // reader takes the command from its channel only
+                            // afterwards, i.e. after the feedback took effect.)
+                            let undone = called.is_some_and(|t0| RECONF_NS.with(|r| r.borrow().iter().any(|t| *t <= t0 + idle_ns * 3 / 2)));
                             if !s.udp && (s.ask.e == 6 || (s.ask.e == 5 && undone)) {
                                 "response-lost/stream/request-in-flight-longer-than-the-idle-timeout".to_string()
                             } else {
